@@ -245,6 +245,32 @@ def c13_for_continue_keys(n: int, l1: int) -> bool:
     return finish(out == exp)
 
 
+T_CONT_PLAIN = _t("{% for i in xs limit: l1 %}a{{ i }}{% endfor %}|{% for i in xs %}b{{ i }}{% endfor %}|{% for i in xs offset: continue %}c{{ i }}{% else %}E{% endfor %}|"
+                  "{% for j in (1..n) %}d{{ j }}{% if j == bk %}{% break %}{% endif %}{% endfor %}|{% for j in (1..n) offset: continue %}e{{ j }}{% else %}E{% endfor %}|")
+
+
+def c13_for_continue_after_plain(n: int, l1: int, bk: int) -> bool:
+    """
+    pre: 0 <= n <= 3
+    post: _
+    """
+    # a loop without limit/offset/reversed consumes the whole collection: a later offset: continue loop over the
+    # same key visits nothing (also after a break, and for ranges)
+    if excluded("c13_for_continue_after_plain", locals()):
+        return True
+    xs = list(range(n))
+    out = render(T_CONT_PLAIN, xs=xs, l1=l1, n=n, bk=bk)
+    a = ref_indices(n, l1, 0, False)
+    exp = "".join("a%d" % i for i in a) + "|" + "".join("b%d" % i for i in xs) + "|E|"
+    d = ""
+    for j in range(1, n + 1):
+        d += "d%d" % j
+        if j == bk:
+            break
+    exp += d + "|E|"
+    return finish(out == exp)
+
+
 # --- other collection kinds ---------------------------------------------------
 T_RANGE = _t("{% for i in (a..b) limit: l offset: o %}" + BODY + "{% else %}E{% endfor %}")
 T_HASH = _t("{% for i in h limit: l offset: o %}[{{ i[0] }}={{ i[1] }}:{{ forloop.index }}:{{ forloop.length }}]{% else %}E{% endfor %}")
@@ -465,6 +491,7 @@ CONDITIONS = [
     {"fn": "c13_for_break_continue", "quick": 60, "thorough": 240},
     {"fn": "c13_for_continue_chain", "quick": 60, "thorough": 300},
     {"fn": "c13_for_continue_keys", "quick": 40, "thorough": 120},
+    {"fn": "c13_for_continue_after_plain", "quick": 60, "thorough": 200},
     {"fn": "c13_for_range", "quick": 60, "thorough": 240},
     {"fn": "c13_for_hash", "quick": 40, "thorough": 180},
     {"fn": "c13_for_string", "quick": 40, "thorough": 120},
